@@ -171,7 +171,7 @@ func check(r caseRec) (vs []engine.Violation, outcome string) {
 			}
 		}
 		sort.Strings(universe)
-		for _, supply := range []string{"enable-all-then-disable", "disable-all-then-enable", "with-nil-members", "enable-disable-enable"} {
+		for _, supply := range []string{"enable-all-then-disable", "disable-all-then-enable", "with-nil-members", "enable-disable-enable", "composite-after-derivation"} {
 			rs := gen.Compile(r.Mods, gen.Options{Features: feats, FeatureSupply: supply, FeatureUniverse: universe})
 			if !rs.OK() {
 				mk("feature:supply-changes-verdict:"+supply, fmt.Sprintf("features %v: %v %v", feats, rs.Err, rs.Panic))
